@@ -15,6 +15,17 @@ def setup(sh):
 
 
 _N = [0]
+_BUF = {}
+
+
+def buffered(sig, as_int):
+    """The caller's acquisition buffer: ONE array object per (length, sample type), refilled in place before every call."""
+    a = np.asarray(sig)
+    if as_int and a.dtype.kind == 'f' and len(a) and np.all(a == np.round(a)) and np.all(np.abs(a) < 2 ** 31):
+        a = a.astype(np.int64)
+    buf = _BUF.setdefault((len(a), a.dtype.str), np.empty(len(a), dtype=a.dtype))
+    buf[:] = a
+    return buf
 
 
 def call(sh, sig, peaks, troughs, driver, case=None):
@@ -22,11 +33,14 @@ def call(sh, sig, peaks, troughs, driver, case=None):
     from .. import pipeline
     vs = []
     _N[0] += 1
-    view = (None, None, 'strided', 'readonly', 'reversed')[_N[0] % 5]       # memory layout of the signal, rotating
+    view = (None, None, 'strided', 'readonly', 'reversed', 'buffer', 'int_buffer')[_N[0] % 7]       # memory layout of the signal, rotating
     if view:
         attach.count('C03:sig_view=' + view)
     try:
-        find_zerox(pipeline.as_view(sig, view), np.asarray(peaks, dtype=int), np.asarray(troughs, dtype=int))
+        arg = buffered(sig, view == 'int_buffer') if view in ('buffer', 'int_buffer') else pipeline.as_view(sig, view)
+        if view == 'int_buffer' and arg.dtype.kind == 'i':
+            attach.count('C03:integer_buffer_refilled_in_place')
+        find_zerox(arg, np.asarray(peaks, dtype=int), np.asarray(troughs, dtype=int))
     except Exception as e:
         vs.append({'mechanism': attach.exc_mechanism(e), 'message': 'find_zerox raised %r' % (e,)})
     vs += [v for v in attach.take_violations() if v['property'] in (PROP, '_monitor')]
